@@ -5,13 +5,19 @@ import common, fns, sweeps, labelled
 from common import quiet, canon
 
 PROP = 'C15'
-LEAN_MODULES = ['XyzProofs.Props.C15', 'XyzProofs.Refine.SamplerSt']
+LEAN_MODULES = ['XyzProofs.Props.C15', 'XyzProofs.Refine.SamplerSt', 'XyzProofs.Refine.Forwarding', 'XyzProofs.Props.C03Df']
 THEOREMS = ['Sampler.c15_appends_n', 'Sampler.c15_row_correct', 'Sampler.c15_draws_allowed', 'Sampler.c15_disk_eq_mem',
             'Sampler.c15_history', 'Sampler.c15_continue', 'Sampler.c15_file_appends', 'Sampler.c15_history_shown',
             'Sampler.c15_two_objects', 'Sampler.inv_step', 'Sampler.c15_look_synced',
             'Sampler.smLoadFull_spec', 'Sampler.smSaveFull_spec', 'Sampler.smAddDf_refines', 'Sampler.smAddDf_unsynced',
-            'Sampler.smSaveFull_error_keeps_mem']
-ANCHORS = ['samplesDefersCleanup', 'smLoadFull', 'smSaveFull', 'smAddDf']
+            'Sampler.smSaveFull_error_keeps_mem',
+            # sample_combos' argument flow and the row labelling, on the translated source (anchors_flow)
+            'Forwarding.gen_cases_flow', 'Forwarding.sample_combos_flow', 'Forwarding.samplerCombos_value', 'Forwarding.keys_update',
+            'Forwarding.run_cases_fn_args', 'Forwarding.run_cases_forwards', 'Forwarding.run_cases_constants',
+            'Forwarding.run_keeps_descriptions', 'Forwarding.chain_run_cases',
+            'DfRefine.c03_df_rows_src', 'DfRefine.toDf_src', 'DfRefine.casesZip_get']
+ANCHORS = ['samplesDefersCleanup', 'smLoadFull', 'smSaveFull', 'smAddDf',
+           'flowGenCases', 'flowSampleCombos', 'flowRunCases', 'flowCaseToDs', 'flowComboToDs', 'dfRows', 'coreRunInfo', 'casesZip']
 RULE = ("histories of 1-6 runs on one data file: sample_combos(n) and sow_samples(n) -> grow -> reap (with batch sizes), n in "
         "1..7, combos overrides (lists and callables), runner constants, 1-2 outputs, engines pickle/csv, shuffle on/off, a "
         "fresh Sampler object between runs, or two live Sampler objects on the one file taking turns; the draws are read off the returned rows and handed to the Lean model, which "
